@@ -383,8 +383,21 @@ fn i2osp(x: &BigUint, len: usize) -> Vec<u8> {
 // ---------------------------------------------------------------------------
 // PASETO local
 
-fn header(ver: Ver, purpose: &str) -> String {
-    format!("{}.{}.", ver.v(), purpose)
+thread_local! {
+    static SUFFIX: std::cell::RefCell<String> = const { std::cell::RefCell::new(String::new()) };
+}
+
+/// Run `f` with the token header carrying the payload-encoding suffix `sfx`
+/// (`v4<sfx>.local.`), as the library does for `Payload::SUFFIX`.
+pub fn with_suffix<T>(sfx: &str, f: impl FnOnce() -> T) -> T {
+    SUFFIX.with(|s| *s.borrow_mut() = sfx.to_string());
+    let r = f();
+    SUFFIX.with(|s| s.borrow_mut().clear());
+    r
+}
+
+pub fn header(ver: Ver, purpose: &str) -> String {
+    SUFFIX.with(|s| format!("{}{}.{}.", ver.v(), s.borrow(), purpose))
 }
 
 pub fn assemble(h: &str, payload: &[u8], footer: &[u8]) -> String {
